@@ -108,6 +108,7 @@ def validateOffsets (d : ArrayData) (large : Bool) (valuesLen : Nat) : Res :=
       | none => .err
       | some l1 =>
         if !typedBufferOk d offs l1 (offW large) then .err
+        else if offs.length % offW large != 0 then .panic     -- `typed_data` asserts an empty suffix
         else
           match readInt offs (offW large) true d.offset, readInt offs (offW large) true (d.offset + d.len) with
           | some first, some last =>
@@ -262,6 +263,7 @@ def eachOffset (d : ArrayData) (offs : List Nat) (large : Bool) (limit : Nat)
     | none => .err
     | some l1 =>
       if !typedBufferOk d offs l1 (offW large) then .err
+      else if offs.length % offW large != 0 then .panic       -- `typed_data` asserts an empty suffix
       else
         match readInt offs (offW large) true d.offset with
         | none => .err
@@ -287,6 +289,7 @@ def validateUtf8 (d : ArrayData) (large : Bool) : Res :=
 
 /-- `check_bounds::<T>(max_value)` of a dictionary's keys -/
 def checkBounds (d : ArrayData) (keys : List Nat) (kw : Nat) (signed : Bool) (dictLen : Nat) : Res :=
+  if keys.length % kw != 0 then .panic else                   -- `typed_data` asserts an empty suffix
   errIf (!allBelow d.len (fun i =>
     !d.isValid i ||
     match readInt keys kw signed (d.offset + i) with
@@ -299,6 +302,7 @@ def checkRunEnds (re : ArrayData) (rw : Nat) : Res :=
   match re.buffers with
   | b :: _ =>
     if !typedBufferOk re b re.len rw then .err
+    else if b.length % rw != 0 then .panic                    -- `typed_data` asserts an empty suffix
     else if !allBelow re.len (runEndOk re rw) then .err
     else match lastRunEnd re rw, checkedAdd re.len re.offset with
       | some last, some lpo => errIf (last < lpo)
@@ -434,5 +438,240 @@ def batchModel (rows : Option Nat) (fields : List (DType × Bool)) (cols : List 
       else if cols.any (fun c => c.len != rc) then .err
       else if (cols.zip fields).any (fun (c, f) => c.type != f.1) then .err
       else .ok
+
+end ArrowModel.C09
+
+/-! ### Typed constructors (arrow-buffer / arrow-array), as the harness assembles their
+arguments from a physical layout with `offset = 0` -/
+namespace ArrowModel.C09
+open ArrowModel.Physical
+
+/-- `ScalarBuffer::<T>::from(buffer)` as a list: `buffer.len() / size_of::<T>()` elements -/
+def scalarEntries (bs : List Nat) (w : Nat) (signed : Bool) : List Int :=
+  (List.range (bs.length / w)).filterMap (readInt bs w signed)
+
+/-- `buffer.windows(2).all(|w| w[0] <= w[1])` -/
+def monotoneAdj : List Int → Bool
+  | a :: b :: rest => decide (a ≤ b) && monotoneAdj (b :: rest)
+  | _ => true
+
+/-- `buffer.windows(2).all(|w| w[0] < w[1])` -/
+def strictAdj : List Int → Bool
+  | a :: b :: rest => decide (a < b) && strictAdj (b :: rest)
+  | _ => true
+
+/-- `OffsetBuffer::new(buffer)`: panics unless non-empty, first ≥ 0, monotonically increasing -/
+def offsetBufferNew (es : List Int) : Res :=
+  match es with
+  | [] => .panic
+  | e0 :: _ => if e0 < 0 then .panic else if monotoneAdj es then .ok else .panic
+
+/-- `OffsetBuffer::from_lengths(lengths)` for a `w`-byte offset type: prefix sums, panics on overflow -/
+def fromLengths (w : Nat) (lens : List Nat) : Option (List Nat) :=
+  let offs := lens.foldl (fun acc l => acc ++ [acc.getLastD 0 + l]) [0]
+  if offs.getLastD 0 < 2 ^ (8 * w - 1) then some offs else none
+
+/-- `RunEndBuffer::new(run_ends, logical_offset, logical_length)` for a `w`-byte run-end type -/
+def runEndBufferNew (w : Nat) (es : List Int) (off len : Nat) : Res :=
+  if !strictAdj es then .panic
+  else if len = 0 then .ok
+  else
+    match es with
+    | [] => .panic
+    | e0 :: _ =>
+      let e := if off + len < USIZE then off + len else USIZE - 1     -- saturating_add
+      if e ≥ 2 ^ (8 * w - 1) then .panic                              -- `E::from_usize(..).unwrap()`
+      else if e0 ≤ 0 then .panic
+      else if es.getLastD 0 < (e : Int) then .panic else .ok
+
+/-- `nulls_of(p)`: `NullBuffer::new(BooleanBuffer::new(buf, 0, p.len))` panics on a short bitmap -/
+def typedNullsOk (d : ArrayData) : Res :=
+  match d.nulls with
+  | none => .ok
+  | some n => if 8 * n.bytes.length < d.len then .panic else .ok
+
+/-- children handed to a typed constructor are built with `ArrayData::try_new` (bottom-up) -/
+def kidsOk (cs : List ArrayData) : Res := tryNewAll cs
+
+/-- child types for which `Array::logical_nulls` is the physical validity bitmap -/
+def logicalSimple : DType → Bool
+  | .null | .dict _ _ _ | .ree _ _ | .union _ _ => false
+  | _ => true
+
+/-- built child: its validity after `build` (dropped when the count is 0) -/
+def builtNulls (c : ArrayData) : Option Nulls := c.nulls.filter (fun x => x.nullCount != 0)
+
+/-- `GenericByteArray::<T>::try_new(OffsetBuffer::new(..), values, nulls)` -/
+def typedBytes (d : ArrayData) (large utf8 : Bool) : Res :=
+  match d.buffers with
+  | [offs, data] =>
+    let es := scalarEntries offs (offW large) true
+    (offsetBufferNew es).andThen fun _ =>
+    (typedNullsOk d).andThen fun _ =>
+    (if utf8 then
+        -- `GenericStringType::validate`: whole buffer valid, every offset on a char boundary
+        errIf (!(utf8Valid data && es.all (fun o => isCharBoundary data o.toNat)))
+      else
+        -- `GenericBinaryType::validate`: last offset within the values
+        errIf (decide ((data.length : Int) < es.getLastD 0))).andThen fun _ =>
+    errIf (d.nulls.isSome && d.len != es.length - 1)
+  | _ => .panic
+
+/-- `GenericListArray::try_new(field, OffsetBuffer::new(..), values, nulls)` -/
+def typedList (d : ArrayData) (large : Bool) (item : DType) (nullable : Bool) : Res :=
+  match d.buffers with
+  | offs :: _ =>
+    let es := scalarEntries offs (offW large) true
+    (offsetBufferNew es).andThen fun _ =>
+    match d.children with
+    | [c] =>
+      (kidsOk [c]).andThen fun _ =>
+      (typedNullsOk d).andThen fun _ =>
+      (errIf (decide ((c.len : Int) < es.getLastD 0))).andThen fun _ =>
+      (errIf (d.nulls.isSome && d.len != es.length - 1)).andThen fun _ =>
+      (errIf (!nullable && (builtNulls c).isSome)).andThen fun _ =>
+      errIf (c.type != item)
+    | _ => .err
+  | [] => .panic
+
+/-- `FixedSizeListArray::try_new(field, size, values, nulls)` -/
+def typedFsl (d : ArrayData) (k : Nat) (item : DType) (nullable : Bool) : Res :=
+  match d.children with
+  | [c] =>
+    (kidsOk [c]).andThen fun _ =>
+    (typedNullsOk d).andThen fun _ =>
+    let nlen : Option Nat := d.nulls.map (fun _ => d.len)
+    (if k = 0 then Res.ok
+     else if c.len % k != 0 then Res.err
+     else match nlen with
+       | some nl => errIf (k * nl != c.len)
+       | none => Res.ok).andThen fun _ =>
+    let len := if k = 0 then nlen.getD 0 else c.len / k
+    (errIf (nlen.isSome && nlen != some len)).andThen fun _ =>
+    (errIf (k == 0 && c.len != 0)).andThen fun _ =>
+    (errIf (c.len != len * k)).andThen fun _ =>
+    (errIf (c.type != item)).andThen fun _ =>
+    match builtNulls c with
+    | none => .ok
+    | some a =>
+      errIf (!(nullable ||
+        (match d.nulls with
+         | some n => containsModel (expandNulls { n with off := 0, len := d.len } k) a
+         | none => a.nullCount == 0)))
+  | _ => .err
+
+/-- the per-field loop of `StructArray::try_new_with_length` -/
+def typedStructFields (len : Nat) (mask : Option Nulls) : List Field → List ArrayData → Res
+  | f :: fs, c :: cs =>
+    (errIf (c.type != f.2.1)).andThen fun _ =>
+    (errIf (c.len != len)).andThen fun _ =>
+    (match f.2.2, builtNulls c with
+     | false, some a =>
+       errIf ((match mask with
+               | none => true
+               | some n => !containsModel n a) && a.nullCount > 0)
+     | _, _ => .ok).andThen fun _ =>
+    typedStructFields len mask fs cs
+  | _, _ => .ok
+
+/-- `StructArray::try_new_with_length(fields, arrays, nulls, len)` -/
+def typedStruct (d : ArrayData) (fields : Fields) : Res :=
+  (kidsOk d.children).andThen fun _ =>
+  (typedNullsOk d).andThen fun _ =>
+  (errIf (fields.toList.length != d.children.length)).andThen fun _ =>
+  typedStructFields d.len (d.nulls.map (fun n => { n with off := 0, len := d.len })) fields.toList d.children
+
+/-- `DictionaryArray::<K>::try_new(PrimitiveArray::try_new(keys, nulls)?, values)` -/
+def typedDict (d : ArrayData) (kw : Nat) (signed : Bool) : Res :=
+  match d.children with
+  | [v] =>
+    (kidsOk [v]).andThen fun _ =>
+    match d.buffers with
+    | keys :: _ =>
+      let ks := scalarEntries keys kw signed
+      (typedNullsOk d).andThen fun _ =>
+      (errIf (d.nulls.isSome && d.len != ks.length)).andThen fun _ =>
+      let validAt (i : Nat) : Bool :=
+        match d.nulls with
+        | none => true
+        | some n => bitAt n.bytes i == some true
+      let nullCount := ((List.range ks.length).filter (fun i => !validAt i)).length
+      if nullCount == ks.length then .ok
+      else errIf ((List.range ks.length).any (fun i =>
+        validAt i && (match ks[i]? with
+                      | some k => decide (k < 0 ∨ (v.len : Int) ≤ k)
+                      | none => false)))
+    | [] => .panic
+  | _ => .err
+
+/-- `PrimitiveArray::from(data)` then `to_data()`: the window of the values buffer at offset 0 -/
+def normPrim (re : ArrayData) (w : Nat) : ArrayData :=
+  { re with offset := 0, nulls := builtNulls re,
+            buffers := re.buffers.map (fun b => (b.drop (re.offset * w)).take (re.len * w)) }
+
+/-- `RunArray::<R>::try_new(&PrimitiveArray::from(run_ends_data), values)` -/
+def typedRun (d : ArrayData) (rw : Nat) : Res :=
+  match d.children with
+  | [re, vals] =>
+    (tryNewRec re).andThen fun _ =>
+    (if re.type != DType.prim rw then Res.panic else Res.ok).andThen fun _ =>
+    (tryNewRec vals).andThen fun _ =>
+    let len : Nat :=
+      if re.len = 0 then 0
+      else match runEndAt re rw (re.len - 1) with
+        | some e => if e < 0 then (USIZE - e.natAbs) else e.toNat      -- `as_usize`
+        | none => 0
+    validateData ⟨.ree rw vals.type, len, 0, none, [], [normPrim re rw, buildTree vals]⟩
+  | _ => .err
+
+/-- `UnionArray::try_new(fields, type_ids, offsets, children)` — **no child type check** -/
+def typedUnion (d : ArrayData) (dense : Bool) (fields : Fields) : Res :=
+  (kidsOk d.children).andThen fun _ =>
+  match d.buffers with
+  | idsB :: rest =>
+    let ids := scalarEntries idsB 1 true
+    let offs : List Int := match rest with
+      | o :: _ => scalarEntries o 4 true
+      | [] => []
+    if dense && rest.isEmpty then .panic
+    else
+    (errIf (fields.toList.length != d.children.length)).andThen fun _ =>
+    (if dense then errIf (offs.length != ids.length)
+     else errIf (d.children.any (fun c => c.len != ids.length))).andThen fun _ =>
+    let lenOf (id : Int) : Option Nat :=
+      if id < 0 then none else (fields.indexOf id).bind (fun k => d.children[k]?.map (·.len))
+    (errIf (ids.any (fun id => (lenOf id).isNone))).andThen fun _ =>
+    if dense then
+      errIf ((ids.zip offs).any (fun (id, o) =>
+        match lenOf id with
+        | some l => decide (o < 0 ∨ (l : Int) ≤ o)
+        | none => true))
+    else .ok
+  | [] => .panic
+
+/-- length a typed constructor derives from its components (`none`: taken from the layout) -/
+def typedLen (kind : String) (d : ArrayData) : Option Nat :=
+  match kind, d.type with
+  | "bytes", .utf8 l | "bytes", .binary l | "list", .list l _ _ =>
+    d.buffers.head?.map (fun b => b.length / offW l - 1)
+  | "fsl", .fsl k _ _ =>
+    if k = 0 then some (if d.nulls.isSome then d.len else 0) else d.children.head?.map (fun c => c.len / k)
+  | "dict", .dict kw _ _ => d.buffers.head?.map (fun b => b.length / kw)
+  | "union", _ => d.buffers.head?.map (·.length)
+  | _, _ => none
+
+/-- dispatch on the harness `kind` -/
+def typedModel (kind : String) (d : ArrayData) : Res :=
+  if d.offset != 0 then .err else
+  match kind, d.type with
+  | "bytes", .utf8 l => typedBytes d l true
+  | "bytes", .binary l => typedBytes d l false
+  | "list", .list l item n => typedList d l item n
+  | "fsl", .fsl k item n => typedFsl d k item n
+  | "struct", .struct fs => typedStruct d fs
+  | "dict", .dict kw s _ => typedDict d kw s
+  | "run", .ree rw _ => typedRun d rw
+  | "union", .union dense fs => typedUnion d dense fs
+  | _, _ => .err
 
 end ArrowModel.C09
